@@ -46,6 +46,10 @@ fn main() {
         }
         return;
     }
+    if args.len() == 5 && args[1] == "c09-gen" {
+        props::c09::dump_raw_cases(args[2].parse().unwrap_or(1), args[3].parse().unwrap_or(100), &args[4]);
+        return;
+    }
     if args.len() < 3 || args[1] != "check" {
         usage();
     }
